@@ -1021,6 +1021,19 @@ func extractC03(c *Ctx) error {
 		sort.Strings(unreviewed)
 		return fmt.Errorf("unreviewed identity-table entries (add them to %s):\n  %s", tblPath, strings.Join(unreviewed, "\n  "))
 	}
+	carried, carriedNames, err := c03AnteLoop(c)
+	if err != nil {
+		return err
+	}
+	c.P("(** VerifyAuthorisedSignatureDecorator.AnteHandle: variables declared OUTSIDE the per-message loop")
+	c.P("    and used inside it (state carried from one message of the transaction to the next): %s *)", CoqStrList(carriedNames))
+	if carried {
+		c.P("Definition ante_lookup_carried : bool := true.")
+	} else {
+		c.P("Definition ante_lookup_carried : bool := false.")
+	}
+	c.P("")
+	c.Info("ante_loop_carried", carriedNames)
 	c.P("(** One entry per rpc of every Msg service (%d handlers, %d string-like request fields reviewed). *)", nHandlers, nLeaves)
 	c.P("Definition specs : list msgspec := [")
 	c.P("%s", strings.Join(specLines, ";\n"))
@@ -1040,4 +1053,98 @@ func extractC03(c *Ctx) error {
 	c.Info("fields_reviewed", nLeaves)
 	c.Info("disciplines", discCount)
 	return nil
+}
+
+// c03AnteLoop inspects the decorator's loop over the messages of a transaction: which variables
+// declared in the function body outside the loop are used inside it. The model (Auth/Ante.v,
+// ante_loop) knows exactly one shape: nothing is carried (everything the check needs is declared
+// in the loop body), or the grantee lookup table is. `err` and the ranged-over slice are exempt.
+func c03AnteLoop(c *Ctx) (bool, []string, error) {
+	f, err := c.Parse("x/paloma/ante.go")
+	if err != nil {
+		return false, nil, err
+	}
+	fd := FindFunc(f, "VerifyAuthorisedSignatureDecorator", "AnteHandle")
+	if fd == nil || fd.Body == nil {
+		return false, nil, fmt.Errorf("x/paloma/ante.go: VerifyAuthorisedSignatureDecorator.AnteHandle not found")
+	}
+	var loop *ast.RangeStmt
+	outer := map[string]bool{}
+	for _, st := range fd.Body.List {
+		if rs, ok := st.(*ast.RangeStmt); ok && len(Calls(rs.Body, "AllowancesByGranter")) > 0 {
+			if loop != nil {
+				return false, nil, fmt.Errorf("AnteHandle: more than one loop queries the fee grants")
+			}
+			loop = rs
+			continue
+		}
+		if loop != nil {
+			continue
+		}
+		switch s := st.(type) {
+		case *ast.AssignStmt:
+			if s.Tok == token.DEFINE {
+				for _, l := range s.Lhs {
+					if id, ok := l.(*ast.Ident); ok {
+						outer[id.Name] = true
+					}
+				}
+			}
+		case *ast.DeclStmt:
+			if gd, ok := s.Decl.(*ast.GenDecl); ok {
+				for _, sp := range gd.Specs {
+					if vs, ok := sp.(*ast.ValueSpec); ok {
+						for _, n := range vs.Names {
+							outer[n.Name] = true
+						}
+					}
+				}
+			}
+		}
+	}
+	if loop == nil {
+		return false, nil, fmt.Errorf("AnteHandle: no top-level `for ... range` loop that queries AllowancesByGranter (shape not understood)")
+	}
+	if len(Calls(fd.Body, "AllowancesByGranter")) != len(Calls(loop.Body, "AllowancesByGranter")) {
+		return false, nil, fmt.Errorf("AnteHandle: fee grants are queried outside the per-message loop (shape not understood)")
+	}
+	// the loop must iterate over every message: tx.GetMsgs() or the flattened list derived from it
+	rangeSrc := c.Src(loop.X)
+	if rangeSrc != "tx.GetMsgs()" && rangeSrc != "msgs" {
+		return false, nil, fmt.Errorf("AnteHandle: loop ranges over %s (shape not understood)", rangeSrc)
+	}
+	// names (re)declared inside the loop body shadow the outer ones from there on; a simple
+	// approximation that is exact for the shapes accepted here: a name counts as carried if it is
+	// used in the body and never declared with := / var in the body.
+	inner := map[string]bool{}
+	ast.Inspect(loop.Body, func(n ast.Node) bool {
+		switch s := n.(type) {
+		case *ast.AssignStmt:
+			if s.Tok == token.DEFINE {
+				for _, l := range s.Lhs {
+					if id, ok := l.(*ast.Ident); ok {
+						inner[id.Name] = true
+					}
+				}
+			}
+		case *ast.ValueSpec:
+			for _, n := range s.Names {
+				inner[n.Name] = true
+			}
+		}
+		return true
+	})
+	used := map[string]bool{}
+	ast.Inspect(loop.Body, func(n ast.Node) bool {
+		if id, ok := n.(*ast.Ident); ok && outer[id.Name] && !inner[id.Name] {
+			used[id.Name] = true
+		}
+		return true
+	})
+	delete(used, "err")
+	if id, ok := loop.X.(*ast.Ident); ok {
+		delete(used, id.Name)
+	}
+	names := SortedSet(used)
+	return len(names) > 0, names, nil
 }
